@@ -64,31 +64,137 @@ def enum_table(ctx) -> None:
     ctx.rep.check("IntEnum" in ctx.prog.mro_names(c), rule, f"{c.qualname}/base", "Tip is an IntEnum", "Tip is not an IntEnum (members would not compare/sum as integers)", where=where)
 
 
+def _static_seq(ctx, f, e: ast.AST):
+    """Statically evaluate a sequence of Tip members: tuple/list literal, the Tip enum itself (definition order),
+    or a module-level name bound to one of these.  -> list of member names | None"""
+    if isinstance(e, ast.Name):
+        if e.id == "Tip":
+            return list(_tip_table(ctx, "C10.int-map").keys())
+        if e.id in f.module.assigns:
+            return _static_seq(ctx, f, f.module.assigns[e.id])
+        return None
+    if isinstance(e, (ast.Tuple, ast.List)):
+        out = []
+        for x in e.elts:
+            if isinstance(x, ast.Attribute) and is_name(x.value, "Tip"):
+                out.append(x.attr)
+            else:
+                return None
+        return out
+    if isinstance(e, ast.Call) and call_fname(e) in ("list", "tuple") and len(e.args) == 1:
+        return _static_seq(ctx, f, e.args[0])
+    return None
+
+
+def _static_table(ctx, f, e: ast.AST):
+    """Statically evaluate a number -> Tip member table: dict literal, dict(enumerate(seq[, start])),
+    dict(zip(range(a, b), seq)), or a module-level name bound to one.  -> {int: member name} | None"""
+    if isinstance(e, ast.Name) and e.id in f.module.assigns:
+        return _static_table(ctx, f, f.module.assigns[e.id])
+    if isinstance(e, ast.Dict):
+        out = {}
+        for k, v in zip(e.keys, e.values):
+            if isinstance(k, ast.Constant) and isinstance(v, ast.Attribute) and is_name(v.value, "Tip"):
+                out[k.value] = v.attr
+            else:
+                return None
+        return out
+    if isinstance(e, ast.Call) and call_fname(e) == "dict" and len(e.args) == 1 and isinstance(e.args[0], ast.Call):
+        inner = e.args[0]
+        if call_fname(inner) == "enumerate" and inner.args:
+            seq = _static_seq(ctx, f, inner.args[0])
+            start = inner.args[1] if len(inner.args) > 1 else next((k.value for k in inner.keywords if k.arg == "start"), ast.Constant(value=0))
+            if seq is not None and isinstance(start, ast.Constant):
+                return {start.value + i: m for i, m in enumerate(seq)}
+        if call_fname(inner) == "zip" and len(inner.args) == 2 and isinstance(inner.args[0], ast.Call) and call_fname(inner.args[0]) == "range":
+            seq = _static_seq(ctx, f, inner.args[1])
+            ra = inner.args[0].args
+            if seq is not None and all(isinstance(x, ast.Constant) for x in ra):
+                rng = list(range(*[x.value for x in ra]))
+                return dict(zip(rng, seq))
+    return None
+
+
 def int_map(ctx) -> None:
     rule = "C10.int-map"
     f = ctx.prog.require_func("int_to_tip", rule)
     fv = ctx.fv(f)
     arg = f.params[0]
     pairs = {}
-    for n in fv.cfg.nodes:
-        if n.kind == "stmt" and isinstance(n.ast, ast.Return):
-            ks = []
-            for r, pol, raw in fv.rfacts_at(n.id):
-                if isinstance(r, ast.Compare) and len(r.ops) == 1 and isinstance(r.ops[0], ast.Eq) and pol and is_name(r.left, arg) and isinstance(r.comparators[0], ast.Constant):
-                    ks.append(r.comparators[0].value)
-            v = fv.res.resolve(n.ast.value, n.id)
+    table_form = None
+    for n in fv.return_nodes():
+        raw = n.ast.value
+        v = fv.res.resolve(raw, n.id)
+        # (c) table lookup  T[arg]  /  T[arg - 1]  /  T.get(arg)
+        lookup = raw if isinstance(raw, ast.Subscript) else None
+        if lookup is not None and isinstance(lookup.value, ast.Name):
+            tab = _static_table(ctx, f, lookup.value)
+            seq = _static_seq(ctx, f, lookup.value) if tab is None else None
+            off = to_poly(lookup.slice) - Poly.symbol(ast.Name(id=arg, ctx=ast.Load()))
+            if tab is not None and off.is_zero():
+                table_form = (n, tab)
+                continue
+            if seq is not None and off.is_const():
+                # list/tuple indexing: negative indices wrap around, so the accepted numbers must be bounded by guards
+                k0 = -int(off.const_value())
+                lo_ok = hi_ok = False
+                A = Poly.symbol(ast.Name(id=arg, ctx=ast.Load()))
+                for r, pol, br in fv.atoms_at(n.id):
+                    cm = to_cmp(r, pol)
+                    if cm is not None and cm == Cmp(A - Poly.const(k0), ">="):
+                        lo_ok = True
+                    if cm is not None and (cm == Cmp(Poly.const(k0 + len(seq) - 1) - A, ">=") or cm == Cmp(Poly.const(k0 + len(seq)) - A, ">")):
+                        hi_ok = True
+                if lo_ok:
+                    table_form = (n, {k0 + i: m for i, m in enumerate(seq)})
+                else:
+                    ctx.rep.refuted(rule, f"{f.qualname}/lookup", f"`{stmt_key(n.ast)}` indexes a sequence without a lower-bound guard: numbers below {k0} wrap around (0 maps to the last tip) instead of being rejected", where=f.where(n.ast))
+                    return
+                continue
+        # (a) if-chain / (b) loop over enumerate(seq, start): return under exactly one `arg == k`
+        ks = []
+        for r, pol, br in fv.atoms_at(n.id):
+            if isinstance(r, ast.Compare) and len(r.ops) == 1 and isinstance(r.ops[0], ast.Eq) and pol and (is_name(r.left, arg) or is_name(r.comparators[0], arg)):
+                other = r.comparators[0] if is_name(r.left, arg) else r.left
+                ks.append(other)
+        if len(ks) != 1:
+            ctx.rep.inconclusive(rule, f"{f.qualname}/return[{show(v)[:30]}]", f"return `{stmt_key(n.ast)}` is not guarded by exactly one `{arg} == k` (unrecognised lookup)", where=f.where(n.ast))
+            return
+        k = ks[0]
+        if isinstance(k, ast.Constant):
             member = v.attr if isinstance(v, ast.Attribute) and is_name(v.value, "Tip") else None
-            if len(ks) != 1 or member is None:
-                ctx.rep.inconclusive(rule, f"{f.qualname}/return[{show(v)}]", f"return `{stmt_key(n.ast)}` is not guarded by exactly one `{arg} == k` (table lookup?)", where=f.where(n.ast))
+            if member is None:
+                ctx.rep.inconclusive(rule, f"{f.qualname}/return[{show(v)[:30]}]", "returned value is not a Tip member", where=f.where(n.ast))
                 return
-            pairs[ks[0]] = member
-            ctx.rep.check(member == f"T{ks[0]}", rule, f"{f.qualname}/{ks[0]}", f"{ks[0]} -> Tip.T{ks[0]}", f"tip number {ks[0]} is mapped to Tip.{member}", where=f.where(n.ast))
-    ctx.rep.check(sorted(pairs) == list(range(1, 9)), rule, f"{f.qualname}/domain", "exactly the numbers 1..8 are mapped", f"mapped numbers are {sorted(pairs)}; expected 1..8", where=f.where())
+            pairs[k.value] = member
+        else:
+            # loop form: k = §idx(loop, seq) + start ; value = §elem(loop, seq)
+            kp = to_poly(k)
+            idx_syms = [s_ for s_ in ast.walk(k) if is_sym(s_, "idx")]
+            if len(idx_syms) == 1 and is_sym(v, "elem") and key(v.args[0]) == key(idx_syms[0].args[0]):
+                start = kp - Poly.symbol(idx_syms[0])
+                raw_loop = [h for h in fv.cfg.enclosing_loops(n.id) if fv.cfg.nodes[h].kind == "for"]
+                seq = None
+                if raw_loop:
+                    it = fv.cfg.nodes[raw_loop[-1]].ast.iter
+                    if isinstance(it, ast.Call) and call_fname(it) == "enumerate" and it.args:
+                        seq = _static_seq(ctx, f, it.args[0])
+                if seq is not None and start.is_const() and not fv.cfg.loop_has_break.get(raw_loop[-1]):
+                    for i, m in enumerate(seq):
+                        pairs[int(start.const_value()) + i] = m
+                    continue
+            ctx.rep.inconclusive(rule, f"{f.qualname}/return[{show(v)[:30]}]", "unrecognised table loop", where=f.where(n.ast))
+            return
+    if table_form is not None:
+        n, tab = table_form
+        pairs.update(tab)
+    for k, member in sorted(pairs.items(), key=lambda kv: str(kv[0])):
+        ctx.rep.check(member == f"T{k}", rule, f"{f.qualname}/{k}", f"{k} -> Tip.T{k}", f"tip number {k} is mapped to Tip.{member}" + (" (a number outside 1..8 must be rejected)" if k not in range(1, 9) else ""), where=f.where())
+    ctx.rep.check(sorted(pairs, key=str) == list(range(1, 9)), rule, f"{f.qualname}/domain", "exactly the numbers 1..8 are mapped", f"mapped numbers are {sorted(pairs, key=str)}; expected exactly 1..8", where=f.where())
     # every other path raises ValueError
-    normal = [n for n in fv.cfg.nodes if n.kind == "stmt" and isinstance(n.ast, ast.Return)]
     falls_through = fv.cfg.exit in {s for n in fv.cfg.nodes if not (n.kind == "stmt" and isinstance(n.ast, ast.Return)) for s, lab in n.succ if n.id in fv.cfg.reachable_from(fv.cfg.entry)}
     raises = [raise_class(fv, s)[0] for s in own_walk(f.node) if isinstance(s, ast.Raise)]
-    ctx.rep.check(not falls_through and raises == ["ValueError"], rule, f"{f.qualname}/else", "everything else raises ValueError", "numbers outside 1..8 do not end in raise ValueError", where=f.where())
+    ctx.rep.check(not falls_through and bool(raises) and set(raises) == {"ValueError"}, rule, f"{f.qualname}/else", "everything else raises ValueError", "numbers outside 1..8 do not end in raise ValueError", where=f.where())
 
 
 # ------------------------------------------------------------------------------- aggregation
@@ -388,13 +494,21 @@ def slots(ctx) -> None:
         if f is None:
             ctx.rep.inconclusive(rule, name, "formatter not found")
             continue
-        fv = ctx.fv(f)
-        slot_loops = [n for n in fv.cfg.nodes if n.kind == "for" and isinstance(n.ast.iter, (ast.List, ast.Tuple)) and all(isinstance(e, ast.Constant) for e in n.ast.iter.elts)]
-        if len(slot_loops) != 1:
-            ctx.rep.inconclusive(rule, f"{f.qualname}/slot-loop", f"expected one loop over the literal slot list, found {len(slot_loops)}")
+        from .common import with_helpers
+
+        found = []
+        for v in with_helpers(ctx, ctx.fv(f)):
+            for n in v.cfg.nodes:
+                if n.kind == "for":
+                    it, _at = v.def_expr(n.ast.iter, n.id)
+                    if isinstance(it, (ast.List, ast.Tuple)) and it.elts and all(isinstance(e, ast.Constant) for e in it.elts):
+                        found.append((v, n, it))
+        if len(found) != 1:
+            ctx.rep.inconclusive(rule, f"{f.qualname}/slot-loop", f"expected one loop over the literal slot list, found {len(found)}")
             continue
-        lp = slot_loops[0]
-        vals = [e.value for e in lp.ast.iter.elts]
+        fv, lp, slot_list = found[0]
+        f = fv.f
+        vals = [e.value for e in slot_list.elts]
         ctx.rep.check(vals == want, rule, f"{f.qualname}/slot-list", "slot list = ascending Tip values 1..128", f"slot list is {vals}; the i-th volume slot belongs to tip i, so it must be the ascending Tip values {want}", where=f.where(lp.ast))
         body = fv.cfg.loop_body[lp.id]
         augs = [n for n in (fv.cfg.nodes[i] for i in body) if n.kind == "stmt" and isinstance(n.ast, ast.AugAssign) and isinstance(n.ast.op, ast.Add)]
